@@ -1,7 +1,9 @@
 package storeh
 
 import (
+	"fmt"
 	"os"
+	"strings"
 	"testing"
 
 )
@@ -41,7 +43,9 @@ func TakeSnap(e, r *Backend) Snap {
 func (s Snap) Term() string {
 	items := make([]string, len(s.Probes))
 	for i := range s.Probes {
-		if s.ERes[i].Term() == s.RRes[i].Term() {
+		if s.ERes[i].Term() == "(RErr ECount)" && s.RRes[i].Term() == "(RErr ENil)" {
+			items[i] = "nf"
+		} else if s.ERes[i].Term() == s.RRes[i].Term() {
 			items[i] = "(same " + s.ERes[i].Term() + ")"
 		} else {
 			items[i] = "(" + s.ERes[i].Term() + ", " + s.RRes[i].Term() + ")"
@@ -110,4 +114,36 @@ func RunHistory(e, r *Backend, ops []Op, divs []string, mayFail []bool, dense bo
 		items = append(items, TakeSnap(e, r).Term())
 	}
 	return
+}
+
+// CaseTerm builds the Coq term of a case from its items.  Snapshot items that
+// occur more than once (typically the snapshots before and after a failed
+// create) are bound once by a let, which keeps the case files small.
+func CaseTerm(items []string) string {
+	count := map[string]int{}
+	for _, it := range items {
+		if strings.HasPrefix(it, "(ISnap") {
+			count[it]++
+		}
+	}
+	names := map[string]string{}
+	var lets strings.Builder
+	out := make([]string, len(items))
+	for i, it := range items {
+		if count[it] > 1 {
+			n, ok := names[it]
+			if !ok {
+				n = fmt.Sprintf("sn%d", len(names))
+				names[it] = n
+				lets.WriteString("let " + n + " := " + it + " in ")
+			}
+			out[i] = n
+		} else {
+			out[i] = it
+		}
+	}
+	if lets.Len() == 0 {
+		return L(out)
+	}
+	return "(" + lets.String() + L(out) + ")"
 }
